@@ -139,8 +139,36 @@ func (x *Exec) lockClasses() []string {
 			out = append(out, l)
 		}
 	}
+	// lock classes the contracts do not know (a mutex added by a change) count as well once the code has used them
+	for k := range x.heapMakers {
+		if strings.HasPrefix(k, "held:") {
+			if l := strings.TrimPrefix(k, "held:"); !seen[l] {
+				seen[l] = true
+				out = append(out, l)
+			}
+		}
+	}
 	sortStrings(out)
 	return out
+}
+
+// declaredLockClass: the contracts mention this lock class (owned state, lock invariant or lock order).
+func (x *Exec) declaredLockClass(l string) bool {
+	cs := x.prog.Contracts
+	for _, o := range cs.Owned {
+		if o == l {
+			return true
+		}
+	}
+	if _, ok := cs.LockInvs[l]; ok {
+		return true
+	}
+	for _, o := range cs.LockOrder {
+		if o == l {
+			return true
+		}
+	}
+	return false
 }
 
 // blockingCheck: a statement that may block indefinitely must not hold a lock,
